@@ -4,7 +4,7 @@ from dataclasses import (
     MISSING,
 )
 
-from prettyprinter.prettyprinter import pretty_call, register_pretty
+from prettyprinter.prettyprinter import pretty_call_alt, register_pretty
 
 
 def is_instance_of_dataclass(value):
@@ -49,7 +49,8 @@ def pretty_dataclass_instance(value, ctx):
         if display_attr:
             kwargs.append((field_def.name, getattr(value, field_def.name)))
 
-    return pretty_call(ctx, cls, **OrderedDict(kwargs))
+    # Not pretty_call(ctx, cls, **kwargs): a field may be named ctx or fn.
+    return pretty_call_alt(ctx, cls, kwargs=OrderedDict(kwargs))
 
 
 def install():
